@@ -397,7 +397,7 @@ class CancelScope(AbstractCancelScope):
 
     @classmethod
     def _is_task_polling(cls, task: asyncio.Task[Any]) -> bool:
-        if task in cls.__delayed_task_cancel_dict or cls.__task_must_cancel(task):
+        if (task in cls.__delayed_task_cancel_dict and task.cancelling() > 0) or cls.__task_must_cancel(task):
             # A (postponed) cancellation is about to be delivered.
             return False
         for scope in cls._inner_to_outer_task_scopes(task):
